@@ -37,6 +37,9 @@ PROPERTY = "C16"
 # ring library: fused / non-benzenoid aromatics, small lactones and acetals, hetero-aromatic
 # hydroxy compounds (where an unfolded ring pattern can be laid along a different ring)
 RING_LIBRARY = [
+    # hypervalent S / P with five and six neighbours (neighbour enumeration beyond 4), in two atom orders
+    "CS(C)(F)(F)(F)F", "FS(F)(F)(F)(C)C", "CS(F)(F)(F)(F)F", "FS(F)(F)(F)(F)C", "CP(F)(F)(F)F", "FP(F)(F)(F)C",
+    "COP(Cl)(Cl)(Cl)Cl", "ClP(Cl)(Cl)(Cl)OC", "CS(C)(C)(C)(C)C", "CSC(=O)S(F)(F)(F)(F)C", "FS(F)(F)(F)(C)C(=O)SC",
     "Oc1cc2cccccc2c1",        # azulen-2-ol
     "Oc1ccc2cccccc12",        # azulen-1-ol
     "Oc1ccccc2cccc12",        # azulen-4-ol
